@@ -16,6 +16,11 @@
      nm <type> <freqs> <fvalid> <n> <fv> <nf> <tr>                    vnacal_new_set_m_error (calibration range 1..3)
      nd <type> <rows> <cols> <b_null> <a_rows> <a_cols> <b_rows> <b_cols> <s_rows> <s_cols> <map: null | p,p,..>
         <cells: h,h,..> <a singular 0|1>                              _vnacal_new_add_common (handles 0..5 valid)
+     nc <type> <rows> <cols> <registered: h,h,..> <unknowns> <correlated> <measurements> <calrange: none | lo~hi>
+        <b_rows> <b_cols> <s_rows> <s_cols> <map: null | p,p,..> <cells: chain;chain;..>
+        _vnacal_new_add_common through new_step on S cells that are parameter chains:
+        chain = node>node>..., node = n:<h> | e:<h>:<live>:<unknown>:<fmin>:<fmax|inf> | c:<h>:<live>:<sigma: - | lo~hi>
+        -> "<ret> <errno> <callbacks> <registered count> <unknowns> <correlated> <measurements>"
      ns <fvalid> <kernel: - | MATH>                                   vnacal_new_solve
      nn <fv|z0|add|me|pv|et|pt|it|solve>                              the same functions with a NULL vnacal_new_t pointer
      pp <null 0|1> <ms | mv n fv gnull | mu h | mc h n fv sigma | dl h | gv h q>
@@ -101,7 +106,21 @@ let dval_of x = if x = "nan" then None else Some (q_of_string x)
 let dlist x = if x = "null" then None else Some (if x = "empty" then [] else List.map dval_of (String.split_on_char ',' x))
 let zlist x = if x = "empty" then [] else List.map zi (String.split_on_char ',' x)
 let valid05 h = let v = z_of_coqz h in ZZ.sign v >= 0 && ZZ.leq v (ZZ.of_int 5)
-let new0 = { n_registered = [Z0]; n_unknowns = Z0; n_measurements = Z0 }
+let unknown5 h = ZZ.equal (z_of_coqz h) (ZZ.of_int 5)
+let flat05 hs = List.map (flat_cell valid05 unknown5) hs
+let new0 = { n_registered = [Z0]; n_unknowns = Z0; n_correlated = Z0; n_measurements = Z0; n_calrange = None }
+let qpair x = match String.split_on_char '~' x with
+  | [a; b] -> (q_of_string a, q_of_string b) | _ -> failwith ("bad range " ^ x)
+let rec chain_of (nodes : string list) : pchain =
+  match nodes with
+  | [] -> failwith "empty chain"
+  | n :: rest ->
+    (match String.split_on_char ':' n with
+     | ["n"; h] -> ChNone (zi h)
+     | ["e"; h; live; unk; a; b] -> ChEnd (zi h, live = "1", unk = "1", q_of_string a, (if b = "inf" then None else Some (q_of_string b)))
+     | ["c"; h; live; sg] -> ChCorr (zi h, live = "1", (if sg = "-" then None else Some (qpair sg)), chain_of rest)
+     | _ -> failwith ("bad chain node " ^ n))
+let chains_of x = if x = "empty" then [] else List.map (fun c -> chain_of (String.split_on_char '>' c)) (String.split_on_char ';' x)
 let nsum t r c f fv me = { v_type = t; v_rows = r; v_cols = c; v_freqs = f; v_fvalid = fv; v_merror = me; v_params = new0 }
 let qi n = { qnum = coqz_of_z (ZZ.of_int n); qden = XH }
 let ptab = [PScalarP; PScalarP; PScalarP; PScalarP; PVectorP (zi "3", qi 1, qi 3); PUnknownP (None, Some ((zi "3", qi 1), qi 3)); PFree]
@@ -121,6 +140,31 @@ let () =
             let (o', oc) = data_step (fun _ _ o -> S o.o_rest) { o_sum = s; o_rest = O } c in
             Printf.printf "%s %s %d\n" (outcome_s oc) (sum_s o'.o_sum) (int_of_nat o'.o_rest)
           end
+        | "dh" ->
+          (* dh <type> <rows> <cols> <freqs> <fz0> <op;op;..>   op = func:a1:a2:a3:a4
+             the extracted hrun / kept over data_run (the rest of the object counts the write events)
+             -> "<outcome/summary after;...> kept=<indices of the calls no argument check refused>" *)
+          let s = { d_type = zi t.(1); d_rows = zi t.(2); d_cols = zi t.(3); d_freqs = zi t.(4); d_fz0 = (t.(5) = "1") } in
+          let op_of x = (match String.split_on_char ':' x with
+              | f :: a -> let g i = (match List.nth_opt a i with Some v -> zi v | None -> Z0) in dcall f (g 0) (g 1) (g 2) (g 3)
+              | [] -> failwith "empty op") in
+          let ops = List.map op_of (String.split_on_char ';' t.(6)) in
+          let step = data_run (fun _ _ o -> S o.o_rest) in
+          let o0 = { o_sum = s; o_rest = O } in
+          let (_, answers) = hrun step o0 ops in
+          (* the summaries after each call: prefixes of the history *)
+          let rec sums o = function [] -> [] | c :: r -> let (o1, _) = step o c in o1.o_sum :: sums o1 r in
+          let mres_s = function
+            | MPass -> "pass/-/0"
+            | MRefused (v, r) | MLate (v, r) -> Printf.sprintf "%s/%s/%d" (fval_s v) (errno_s (actual_errno r)) (int_of_nat (callbacks r)) in
+          let k = kept step o0 ops in
+          (* the indices of the calls no argument check refused; kept must be exactly that sublist *)
+          let sel = List.concat (List.mapi (fun i m -> (match m with MRefused (_, _) -> [] | _ -> [i])) answers) in
+          let sub = List.filteri (fun i _ -> List.mem i sel) ops in
+          let idx _ _ _ = if sub = k then sel else [-1] in
+          Printf.printf "%s kept=%s\n"
+            (String.concat ";" (List.map2 (fun m su -> mres_s m ^ "/" ^ sum_s su) answers (sums o0 ops)))
+            (match idx 0 ops k with [] -> "-" | l -> String.concat "," (List.map string_of_int l))
         | "q" ->
           let nullh = (t.(1) = "null") in
           let sl = if nullh then [] else slots_of t.(1) in
@@ -139,44 +183,55 @@ let () =
              Printf.printf "%s %s%s\n" (outcome_s o) (slots_s sl') idx)
         | "r" ->
           let ints x = List.map zi (String.split_on_char ',' x) in
-          let valid h = let v = z_of_coqz h in ZZ.sign v >= 0 && ZZ.leq v (ZZ.of_int 5) in
-          let unknown h = ZZ.equal (z_of_coqz h) (ZZ.of_int 5) in
-          let s0 = { n_registered = ints t.(1); n_unknowns = zi t.(2); n_measurements = Z0 } in
+          let s0 = { n_registered = ints t.(1); n_unknowns = zi t.(2); n_correlated = Z0; n_measurements = Z0;
+                     n_calrange = Some (qi 1, qi 3) } in
           (* through the step of the whole vnacal_new_t (T8 2x2, frequency vector given): argument checks of
              _vnacal_new_add_common, then the registration in the order found in the C text *)
           let o0 = { no_sum = { v_type = Z0; v_rows = zi "2"; v_cols = zi "2"; v_freqs = zi "3"; v_fvalid = true;
                                 v_merror = false; v_params = s0 }; no_rest = () } in
           let a = { aa_b_null = false; aa_a = None; aa_b_rows = zi "2"; aa_b_cols = zi "2"; aa_s_rows = zi "2";
-                    aa_s_cols = zi "2"; aa_map = Some [zi "1"; zi "2"]; aa_cells = ints t.(3); aa_a_singular = false;
+                    aa_s_cols = zi "2"; aa_map = Some [zi "1"; zi "2"]; aa_cells = flat05 (ints t.(3)); aa_a_singular = false;
                     aa_s_incomplete = false } in
-          let (o1, o) = new_step valid unknown (fun x _ -> x) (fun x -> x) o0 (NAdd a) in
+          let (o1, o) = new_step (fun x _ -> x) (fun x -> x) o0 (NAdd a) in
           let s1 = o1.no_sum.v_params in
           Printf.printf "%s %d %s %s\n" (outcome_s o) (List.length s1.n_registered) (iz s1.n_unknowns) (iz s1.n_measurements)
         | "na" -> Printf.printf "%s\n" (outcome_s (check_new_alloc (zi t.(1)) (zi t.(2)) (zi t.(3)) (zi t.(4))))
         | "nf" ->
           let s = nsum Z0 (zi "2") (zi "2") (zi t.(1)) false false in
-          Printf.printf "%s\n" (outcome_s (check_new valid05 (Some s) (NSetFv (dlist t.(2), false))))
+          Printf.printf "%s\n" (outcome_s (check_new (Some s) (NSetFv (dlist t.(2), false))))
         | "nx" ->
           let s = nsum Z0 (zi "2") (zi "2") (zi "3") true false in
           let c = (match t.(1) with
               | "pv" -> NSetPvalue (dval_of t.(2)) | "et" -> NSetEtTol (dval_of t.(2)) | "pt" -> NSetPTol (dval_of t.(2))
               | _ -> NSetIter (zi t.(2))) in
-          Printf.printf "%s\n" (outcome_s (check_new valid05 (Some s) c))
+          Printf.printf "%s\n" (outcome_s (check_new (Some s) c))
         | "nm" ->
           let s = nsum (zi t.(1)) (zi "2") (zi "2") (zi t.(2)) (t.(3) = "1") false in
           let c = NSetMError (gen_f_extrapolation, qi 1, qi 3, zi t.(4), dlist t.(5), dlist t.(6), dlist t.(7), false) in
-          Printf.printf "%s\n" (outcome_s (check_new valid05 (Some s) c))
+          Printf.printf "%s\n" (outcome_s (check_new (Some s) c))
         | "nd" ->
           let s = nsum (zi t.(1)) (zi t.(2)) (zi t.(3)) (zi "3") true false in
           let a = { aa_b_null = (t.(4) = "1");
                     aa_a = (if t.(5) = "0" && t.(6) = "0" then None else Some (zi t.(5), zi t.(6)));
                     aa_b_rows = zi t.(7); aa_b_cols = zi t.(8); aa_s_rows = zi t.(9); aa_s_cols = zi t.(10);
                     aa_map = (if t.(11) = "null" then None else Some (zlist t.(11)));
-                    aa_cells = zlist t.(12); aa_a_singular = (t.(13) = "1"); aa_s_incomplete = false } in
-          Printf.printf "%s\n" (outcome_s (check_new valid05 (Some s) (NAdd a)))
+                    aa_cells = flat05 (zlist t.(12)); aa_a_singular = (t.(13) = "1"); aa_s_incomplete = false } in
+          Printf.printf "%s\n" (outcome_s (check_new (Some s) (NAdd a)))
+        | "nc" ->
+          let s0 = { n_registered = zlist t.(4); n_unknowns = zi t.(5); n_correlated = zi t.(6); n_measurements = zi t.(7);
+                     n_calrange = (if t.(8) = "none" then None else Some (qpair t.(8))) } in
+          let o0 = { no_sum = { v_type = zi t.(1); v_rows = zi t.(2); v_cols = zi t.(3); v_freqs = zi "3"; v_fvalid = true;
+                                v_merror = false; v_params = s0 }; no_rest = () } in
+          let a = { aa_b_null = false; aa_a = None; aa_b_rows = zi t.(9); aa_b_cols = zi t.(10); aa_s_rows = zi t.(11);
+                    aa_s_cols = zi t.(12); aa_map = (if t.(13) = "null" then None else Some (zlist t.(13)));
+                    aa_cells = chains_of t.(14); aa_a_singular = false; aa_s_incomplete = false } in
+          let (o1, o) = new_step (fun x _ -> x) (fun x -> x) o0 (NAdd a) in
+          let s1 = o1.no_sum.v_params in
+          Printf.printf "%s %d %s %s %s\n" (outcome_s o) (List.length s1.n_registered) (iz s1.n_unknowns) (iz s1.n_correlated)
+            (iz s1.n_measurements)
         | "ns" ->
           let s = nsum Z0 (zi "2") (zi "2") (zi "3") (t.(1) = "1") false in
-          Printf.printf "%s\n" (outcome_s (check_new valid05 (Some s) (NSolve (if t.(2) = "MATH" then Some MATH else None))))
+          Printf.printf "%s\n" (outcome_s (check_new (Some s) (NSolve (if t.(2) = "MATH" then Some MATH else None))))
         | "nn" ->
           (* NULL vnacal_new_t pointer *)
           let a0 = { aa_b_null = false; aa_a = None; aa_b_rows = zi "2"; aa_b_cols = zi "2"; aa_s_rows = zi "2"; aa_s_cols = zi "2";
@@ -186,7 +241,7 @@ let () =
               | "me" -> NSetMError (gen_f_extrapolation, qi 1, qi 3, zi "1", None, None, None, false)
               | "pv" -> NSetPvalue None | "et" -> NSetEtTol None | "pt" -> NSetPTol None | "it" -> NSetIter (zi "1")
               | _ -> NSolve None) in
-          Printf.printf "%s\n" (outcome_s (check_new valid05 None c))
+          Printf.printf "%s\n" (outcome_s (check_new None c))
         | "pp" ->
           let h = if t.(1) = "1" then None else Some ptab in
           let c = (match t.(2) with
@@ -208,8 +263,9 @@ let () =
         | "g" ->
           (* the facts taken from the C text that are baked into this executable *)
           let b x = if x then "1" else "0" in
-          Printf.printf "%s%s%s%s%s-%s\n" (b gen_get_z0_strict) (b gen_set_z0_strict) (b gen_get_fz0_strict)
-            (b gen_set_fz0_strict) (b gen_add_common_prevalidates) (iz gen_orders_digest)
+          Printf.printf "%s%s%s%s%s%s%s-%s\n" (b gen_get_z0_strict) (b gen_set_z0_strict) (b gen_get_fz0_strict)
+            (b gen_set_fz0_strict) (b gen_add_common_prevalidates) (b gen_check_parameter_recurses)
+            (b gen_get_parameter_recurses) (iz gen_orders_digest)
         | "e" -> Printf.printf "%s\n" (errno_s (gen_errno_of_code (zi t.(1))))
         | _ -> failwith "unknown line"
       end
